@@ -57,7 +57,9 @@ type Prepared struct {
 }
 
 // Prep analyses (-1)^neg * num/den * 10^e10 for floating rounding.
-func Prep(neg bool, num, den *big.Int, e10 int) *Prepared { return prep(neg, num, den, e10, MinQ, true) }
+func Prep(neg bool, num, den *big.Int, e10 int) *Prepared {
+	return prep(neg, num, den, e10, MinQ, true)
+}
 
 func (p *Prepared) Info() RInfo { return p.info }
 
